@@ -11,9 +11,10 @@
 //!   J  import of a JSON text into an empty list: the resulting set, or E for a rejected text.
 //!   H  a history of ignore / is_ignored / remove_ignored / export+import / clear on one list.
 //! Search oracle = the property text, on IgnoredLints directly, through harper_wasm::Linter and through
-//! harper-ls DocumentState.
+//! harper-ls DocumentState.  "Edited elsewhere" covers text edits and — since a word's dictionary
+//! metadata is not part of the text — the same text re-parsed after words were added to the dictionary.
 use harper_core::linting::{Lint, LintGroup, LintKind, Linter, Suggestion};
-use harper_core::{Dialect, Document, FatToken, FstDictionary, IgnoredLints, Punctuation, Span, TokenKind};
+use harper_core::{Dialect, Document, FatToken, FstDictionary, IgnoredLints, MergedDictionary, MutableDictionary, Punctuation, Span, TokenKind, WordMetadata};
 use hv::common::*;
 use hv::gen;
 use serde_json::{json, Value};
@@ -131,63 +132,21 @@ fn intersecting(doc: &Document, a: usize, b: usize) -> Vec<usize> {
     doc.get_tokens().iter().enumerate().filter(|(_, t)| t.span.start < b && a < t.span.end).map(|(i, _)| i).collect()
 }
 
-/// Which context the implementation builds: windows of the code as it is ([s-2,s) when s >= 2, [s,e),
-/// [s+2,s+4)) or the two-character neighbourhood (fixes/F13.diff); twin_loc kept or blanked (fixes/F12.diff).
-#[derive(Clone, Copy, PartialEq, Eq, Debug)]
-struct Variant {
-    nb_windows: bool,
-    blank: bool,
-}
-/// the variant the implementation was found to follow (set once by Env::new)
-static VARIANT: std::sync::OnceLock<Variant> = std::sync::OnceLock::new();
-fn followed() -> Variant {
-    *VARIANT.get().unwrap_or(&Variant::CURRENT)
-}
-
-impl Variant {
-    const CURRENT: Variant = Variant { nb_windows: false, blank: false };
-    fn digit(&self) -> usize {
-        (self.blank as usize) + 2 * (self.nb_windows as usize)
-    }
-    fn indices(&self, l: &Lint, doc: &Document) -> Vec<usize> {
-        if !self.nb_windows {
-            return mirror_indices(l, doc);
-        }
-        let (s, e) = (l.span.start, l.span.end);
-        let mut v = intersecting(doc, s.saturating_sub(2), s);
-        v.extend(intersecting(doc, s, e));
-        v.extend(intersecting(doc, e, e + 2));
-        v
-    }
-    fn mirror(&self, l: &Lint, doc: &Document) -> (Vec<usize>, Mirror) {
-        let idx = self.indices(l, doc);
-        let mut m = mirror_of(l, doc, &idx);
-        if self.blank {
-            m.tokens = m.tokens.into_iter().map(blank).collect();
-        }
-        (idx, m)
-    }
-    /// two probe lints on a probe document on which the four variants hash differently
-    fn detect(dict: &Arc<FstDictionary>) -> Option<Variant> {
-        let doc = Document::new_plain_english("x \"ab\" cdefgh i (we) z", dict);
-        let a = synthetic(Span { start: 3, end: 5 }); // two characters, quotation marks on both sides
-        let b = synthetic(Span { start: 7, end: 13 }); // six characters, no quotation mark within reach
-        let blank = [false, true].into_iter().find(|bl| Some(hash_of(&Variant { nb_windows: false, blank: *bl }.mirror(&a, &doc).1)) == real_hash(&a, &doc))?;
-        let nb = [false, true].into_iter().find(|nb| Some(hash_of(&Variant { nb_windows: *nb, blank }.mirror(&b, &doc).1)) == real_hash(&b, &doc))?;
-        Some(Variant { nb_windows: nb, blank })
-    }
-}
-
-/// the indices the model predicts for the code as it is: [s-2,s) when s >= 2, [s,e), [s+2,s+4)
+/// the indices the model predicts: [s-2 (saturating), s), [s,e), [e,e+2)
 fn mirror_indices(l: &Lint, doc: &Document) -> Vec<usize> {
     let (s, e) = (l.span.start, l.span.end);
-    let mut v = vec![];
-    if s >= 2 {
-        v.extend(intersecting(doc, s - 2, s));
-    }
+    let mut v = intersecting(doc, s.saturating_sub(2), s);
     v.extend(intersecting(doc, s, e));
-    v.extend(intersecting(doc, s + 2, s + 4));
+    v.extend(intersecting(doc, e, e + 2));
     v
+}
+
+/// the context the model predicts: the fat tokens at those indices, twin_loc and word metadata blanked
+fn mirror(l: &Lint, doc: &Document) -> (Vec<usize>, Mirror) {
+    let idx = mirror_indices(l, doc);
+    let mut m = mirror_of(l, doc, &idx);
+    m.tokens = m.tokens.into_iter().map(blank).collect();
+    (idx, m)
 }
 
 fn fat(doc: &Document, i: usize) -> FatToken {
@@ -228,9 +187,26 @@ fn real_hash(l: &Lint, doc: &Document) -> Option<u64> {
 // the property's own notion of neighbourhood (written from the property text, not from the code)
 // ------------------------------------------------------------------------------------------------
 
+/// a token is its kind and its text: the partner index of a quotation mark is a position, the metadata of
+/// a word is a fact about the dictionary of the moment — neither is part of "the tokens" of the property
 fn blank(mut f: FatToken) -> FatToken {
     if let TokenKind::Punctuation(Punctuation::Quote(q)) = &mut f.kind {
         q.twin_loc = None;
+    }
+    if let TokenKind::Word(m) = &mut f.kind {
+        *m = None;
+    }
+    f
+}
+fn blank_twin_only(mut f: FatToken) -> FatToken {
+    if let TokenKind::Punctuation(Punctuation::Quote(q)) = &mut f.kind {
+        q.twin_loc = None;
+    }
+    f
+}
+fn blank_meta_only(mut f: FatToken) -> FatToken {
+    if let TokenKind::Word(m) = &mut f.kind {
+        *m = None;
     }
     f
 }
@@ -258,8 +234,6 @@ struct Env {
     seen: HashMap<u64, Mirror>,
     collisions: u64,
     mirror_mismatch: u64,
-    variant: Variant,
-    variant_detected: bool,
     c_cases: usize,
     x_cases: usize,
 }
@@ -269,9 +243,7 @@ impl Env {
         let dict = FstDictionary::curated();
         let mut group = LintGroup::new_curated(dict.clone(), Dialect::American);
         group.set_all_rules_to(Some(true));
-        let detected = Variant::detect(&dict);
-        let _ = VARIANT.set(detected.unwrap_or(Variant::CURRENT));
-        Env { dict, group, km: Default::default(), seen: Default::default(), collisions: 0, mirror_mismatch: 0, variant: detected.unwrap_or(Variant::CURRENT), variant_detected: detected.is_some(), c_cases: 0, x_cases: 0 }
+        Env { dict, group, km: Default::default(), seen: Default::default(), collisions: 0, mirror_mismatch: 0, c_cases: 0, x_cases: 0 }
     }
     fn document(&self, text: &str, lang: &str) -> Document {
         if lang == "markdown" {
@@ -288,9 +260,28 @@ impl Env {
         });
         r.ok()
     }
+    /// the same text parsed and linted (all rules on) after `words` were added to a user dictionary
+    fn lint_with_words(&self, text: &str, lang: &str, words: &[String]) -> Option<(Document, Vec<Lint>)> {
+        guarded(|| {
+            let mut user = MutableDictionary::new();
+            for w in words {
+                user.append_word_str(w, WordMetadata::default());
+            }
+            let mut merged = MergedDictionary::new();
+            merged.add_dictionary(self.dict.clone());
+            merged.add_dictionary(Arc::new(user));
+            let merged = Arc::new(merged);
+            let d = if lang == "markdown" { Document::new_markdown_default(text, &merged) } else { Document::new_plain_english(text, &merged) };
+            let mut group = LintGroup::new_curated(merged.clone(), Dialect::American);
+            group.set_all_rules_to(Some(true));
+            let l = group.lint(&d);
+            (d, l)
+        })
+        .ok()
+    }
     /// validated context of (lint, doc): Some(mirror) when the rebuilt context hashes to the stored value
     fn context(&mut self, rep: &mut Report, l: &Lint, doc: &Document, inp: &Value) -> Option<(Vec<usize>, Mirror, u64)> {
-        let (idx, m) = self.variant.mirror(l, doc);
+        let (idx, m) = mirror(l, doc);
         let h = real_hash(l, doc)?;
         if hash_of(&m) != h {
             // a broken tie, not a failure of the property: shown by the `MISMATCH` lines of the C cases
@@ -321,7 +312,7 @@ fn case_c(rep: &mut Report, env: &mut Env, l: &Lint, doc: &Document, inp: &Value
     if doc.get_source().len() > 600 {
         return;
     }
-    let line = format!("C{} {} | {}", env.variant.digit(), lint_str(l), doc_str(doc, &mut env.km));
+    let line = format!("C {} | {}", lint_str(l), doc_str(doc, &mut env.km));
     match env.context(rep, l, doc, inp) {
         Some((idx, _, _)) => rep.case(&line, idx.iter().map(|i| i.to_string()).collect::<Vec<_>>().join(" ").trim()),
         None => rep.case(&line, "MISMATCH"),
@@ -334,7 +325,7 @@ fn case_x(rep: &mut Report, env: &mut Env, l1: &Lint, d1: &Document, l2: &Lint, 
     ig.ignore_lint(l1, d1);
     let same = ig.is_ignored(l2, d2);
     if d1.get_source().len() + d2.get_source().len() <= 900 {
-        let line = format!("X{} {} | {} | {} | {}", env.variant.digit(), lint_str(l1), doc_str(d1, &mut env.km), lint_str(l2), doc_str(d2, &mut env.km));
+        let line = format!("X {} | {} | {} | {}", lint_str(l1), doc_str(d1, &mut env.km), lint_str(l2), doc_str(d2, &mut env.km));
         rep.case(&line, if same { "S" } else { "D" });
         env.x_cases += 1;
         rep.count(if same { "x_case:same_context" } else { "x_case:different_context" });
@@ -361,12 +352,14 @@ struct Scenario {
     /// hand-written cases: ignore the first lint whose flagged text is this (resolved after linting)
     ignore_text: Vec<String>,
     edit: Option<Edit>,
+    /// words added to the user dictionary after the lints were ignored (the text stays as it is)
+    dict_add: Vec<String>,
     origin: String,
 }
 
 impl Scenario {
     fn to_json(&self) -> Value {
-        json!({"kind": "scenario", "text": self.text, "lang": self.lang, "ignore": self.ignore, "ignore_text": self.ignore_text, "origin": self.origin,
+        json!({"kind": "scenario", "text": self.text, "lang": self.lang, "ignore": self.ignore, "ignore_text": self.ignore_text, "origin": self.origin, "dict_add": self.dict_add,
                "edit": self.edit.as_ref().map(|e| json!({"at": e.at, "del": e.del, "ins": e.ins}))})
     }
     fn from_json(v: &Value) -> Option<Scenario> {
@@ -376,6 +369,7 @@ impl Scenario {
             ignore: v["ignore"].as_array().map(|a| a.iter().filter_map(|x| x.as_u64()).map(|x| x as usize).collect()).unwrap_or_default(),
             ignore_text: v["ignore_text"].as_array().map(|a| a.iter().filter_map(|x| x.as_str()).map(|x| x.to_string()).collect()).unwrap_or_default(),
             edit: v.get("edit").and_then(|e| if e.is_null() { None } else { Some(Edit { at: e["at"].as_u64()? as usize, del: e["del"].as_u64()? as usize, ins: e["ins"].as_str()?.to_string() }) }),
+            dict_add: v["dict_add"].as_array().map(|a| a.iter().filter_map(|x| x.as_str()).map(|x| x.to_string()).collect()).unwrap_or_default(),
             origin: v["origin"].as_str().unwrap_or("replay").to_string(),
         })
     }
@@ -408,9 +402,9 @@ fn text_of(doc: &Document, sp: Span) -> String {
     src[sp.start.min(src.len())..sp.end.min(src.len())].iter().collect()
 }
 
-/// Why is `l` (of `doc`) hidden although it is not "the same lint" as any ignored one?  A known class is
-/// only named when the MODEL of the context variant the implementation follows also gives both lints the
-/// same context — i.e. the failure is the modelled behaviour; anything else is `only_other`.
+/// Why is `l` (of `doc`) hidden although it is not "the same lint" as any ignored one?  The one known class
+/// (`only_flattened`, F13d) is only named when the MODEL also gives both lints the same context although they
+/// flag different tokens — i.e. the failure is the modelled behaviour; anything else is `only_other`.
 fn classify_only(phase: &str, l: &Lint, doc: &Document, ignored: &[(Lint, Document)]) -> (&'static str, String, Value) {
     let nb = neighbourhood(l, doc);
     let h = real_hash(l, doc);
@@ -419,18 +413,15 @@ fn classify_only(phase: &str, l: &Lint, doc: &Document, ignored: &[(Lint, Docume
     match culprit {
         Some((i, d)) if same_report(i, l) => {
             let (ni, nl) = (neighbourhood(i, d), nb.clone());
-            let modelled = followed().mirror(i, d).1 == followed().mirror(l, doc).1;
+            let modelled = mirror(i, d).1 == mirror(l, doc).1;
+            let flat = |n: &(Vec<FatToken>, Vec<FatToken>, Vec<FatToken>)| n.0.iter().chain(n.1.iter()).chain(n.2.iter()).cloned().collect::<Vec<_>>();
+            let same_flat = flat(&ni) == flat(&nl);
             let diag = json!({"lint_len": len, "before_equal": ni.0 == nl.0, "flagged_equal": ni.1 == nl.1, "after_equal": ni.2 == nl.2,
-                              "lint_start": l.span.start, "ignored_start": i.span.start, "same_context_in_the_model": modelled});
-            let same_len = i.span.end - i.span.start == len;
+                              "lint_start": l.span.start, "ignored_start": i.span.start, "same_context_in_the_model": modelled, "same_flat_list": same_flat});
             let (class, what) = if !modelled {
                 ("only_other", format!("{phase}: lint {:?} {:?} is hidden together with the ignored lint {:?} although the model of LintContext::from_lint gives them different contexts", l.span, text_of(doc, l.span), i.span))
-            } else if ni.1 != nl.1 {
-                ("only_flattened", format!("{phase}: lint {:?} {:?} and the ignored lint {:?} {:?} flag different tokens, but prequel ++ problem ++ sequel is the same flat token list (the tokens are split differently between the three windows); the context does not record the window boundaries, so the second is hidden as well", l.span, text_of(doc, l.span), i.span, text_of(d, i.span)))
-            } else if ni.0 == nl.0 && ni.2 != nl.2 && len != 2 && same_len {
-                ("only_sequel_window", format!("{phase}: lint {:?} {:?} was never ignored and differs from the ignored lint {:?} in the tokens right after the flagged text, yet it is hidden: the sequel window [s+2,s+4) does not cover the two characters after the {len}-character flagged text, so the following tokens are not (all) part of the context", l.span, text_of(doc, l.span), i.span))
-            } else if ni.0 != nl.0 && ni.2 == nl.2 && l.span.start < 2 && i.span.start < 2 {
-                ("only_prequel_dropped", format!("{phase}: lint {:?} {:?} differs from the ignored lint {:?} in the tokens before it, yet it is hidden: with s < 2 the prequel window is dropped altogether", l.span, text_of(doc, l.span), i.span))
+            } else if same_flat {
+                ("only_flattened", format!("{phase}: lint {:?} {:?} and the ignored lint {:?} {:?} have different tokens before / under / after the flagged text, but prequel ++ problem ++ sequel is the same flat token list (the tokens are split differently between the three windows); the context does not record the window boundaries, so the second is hidden as well", l.span, text_of(doc, l.span), i.span, text_of(d, i.span)))
             } else {
                 ("only_other", format!("{phase}: lint {:?} {:?} differs from every ignored lint in its neighbourhood, yet it is hidden (same stored context as ignored {:?})", l.span, text_of(doc, l.span), i.span))
             };
@@ -556,6 +547,17 @@ fn run_scenario(rep: &mut Report, env: &mut Env, sc: &Scenario) {
         }
         Err(e) => rep.fail("roundtrip", format!("exported list does not import: {e}"), inp.clone()),
     }
+    // ---- the user adds words to the dictionary: the text is the same, the metadata of its words is not
+    if !sc.dict_add.is_empty() {
+        match env.lint_with_words(&sc.text, &sc.lang, &sc.dict_add) {
+            Some((doc_d, lints_d)) => {
+                rep.count("scenario:dictionary_grew");
+                let noedit = Edit { at: sc.text.chars().count(), del: 0, ins: String::new() };
+                stable_phase(rep, env, &ig, &lints, &chosen, &doc, &ignored, &doc_d, &lints_d, &noedit, &inp, "after words were added to the dictionary");
+            }
+            None => rep.count("scenario:lint_panicked(C01's business)"),
+        }
+    }
     // ---- edit elsewhere
     let Some(e) = &sc.edit else { return };
     let text2 = apply_edit(&sc.text, e);
@@ -563,72 +565,69 @@ fn run_scenario(rep: &mut Report, env: &mut Env, sc: &Scenario) {
         rep.count("scenario:lint_panicked(C01's business)");
         return;
     };
-    let mut kept3 = lints3.clone();
-    if let Err(m) = guarded(|| ig.remove_ignored(&mut kept3, &doc3)) {
-        rep.fail("panic", format!("remove_ignored panicked after the edit: {m}"), inp);
+    stable_phase(rep, env, &ig, &lints, &chosen, &doc, &ignored, &doc3, &lints3, e, &inp, "after the edit");
+    // ---- both: the edited text under the grown dictionary
+    if !sc.dict_add.is_empty() {
+        if let Some((doc4, lints4)) = env.lint_with_words(&text2, &sc.lang, &sc.dict_add) {
+            stable_phase(rep, env, &ig, &lints, &chosen, &doc, &ignored, &doc4, &lints4, e, &inp, "after the edit and words added to the dictionary");
+        }
+    }
+}
+
+/// `doc3`/`lints3`: the document after something changed elsewhere (`e` maps the spans).  Every chosen lint
+/// that is produced again with an untouched neighbourhood must still be hidden; every hidden lint must be
+/// "the same lint" as an ignored one.
+#[allow(clippy::too_many_arguments)]
+fn stable_phase(rep: &mut Report, env: &mut Env, ig: &IgnoredLints, lints: &[Lint], chosen: &[usize], doc: &Document, ignored: &[(Lint, Document)], doc3: &Document, lints3: &[Lint], e: &Edit, inp: &Value, phase: &str) {
+    let mut kept3 = lints3.to_vec();
+    if let Err(m) = guarded(|| ig.remove_ignored(&mut kept3, doc3)) {
+        rep.fail("panic", format!("remove_ignored panicked {phase}: {m}"), inp.clone());
         return;
     }
     let ins_len = e.ins.chars().count();
-    for i in &chosen {
+    for i in chosen {
         let l = &lints[*i];
         let Some(sp) = map_span(l.span, e, ins_len) else {
             rep.count("stable:flagged_text_edited(no demand)");
             continue;
         };
         let Some(l3) = lints3.iter().find(|x| x.span == sp && same_report(x, l)) else {
-            rep.count("stable:lint_not_produced_after_edit(no demand)");
+            rep.count("stable:lint_not_produced_again(no demand)");
             continue;
         };
-        let same = case_x(rep, env, l, &doc, l3, &doc3);
-        if neighbourhood(l, &doc) != neighbourhood(l3, &doc3) {
+        case_x(rep, env, l, doc, l3, doc3);
+        if neighbourhood(l, doc) != neighbourhood(l3, doc3) {
             rep.count("stable:neighbourhood_touched(no demand)");
             continue;
         }
         rep.count("stable:demanded");
-        let still_hidden = !kept3.contains(l3);
-        if still_hidden {
+        if !kept3.contains(l3) {
             rep.count("stable:still_ignored");
             continue;
         }
-        let _ = same;
-        // diagnose
-        let raw = Variant { nb_windows: env.variant.nb_windows, blank: false };
-        let (ma, mb) = (raw.mirror(l, &doc).1, raw.mirror(l3, &doc3).1);
-        let blank_all = |m: &Mirror| m.tokens.iter().cloned().map(blank).collect::<Vec<_>>();
-        // a quotation mark of the context whose twin_loc changed
-        let twin_changed = ma.tokens.iter().zip(mb.tokens.iter()).any(|(x, y)| match (&x.kind, &y.kind) {
-            (TokenKind::Punctuation(Punctuation::Quote(p)), TokenKind::Punctuation(Punctuation::Quote(q))) => p.twin_loc != q.twin_loc,
-            _ => false,
-        });
+        // diagnose: the raw fat tokens of the two-character neighbourhood
+        let raw = |l: &Lint, d: &Document| mirror_indices(l, d).into_iter().map(|i| fat(d, i)).collect::<Vec<_>>();
+        let (ra, rb) = (raw(l, doc), raw(l3, doc3));
+        let twin_only = ra != rb && ra.iter().cloned().map(blank_twin_only).collect::<Vec<_>>() == rb.iter().cloned().map(blank_twin_only).collect::<Vec<_>>();
+        let meta_only = ra != rb && ra.iter().cloned().map(blank_meta_only).collect::<Vec<_>>() == rb.iter().cloned().map(blank_meta_only).collect::<Vec<_>>();
         let len = l.span.end - l.span.start;
-        // a token of the sequel window [s+2,s+4) that lies wholly beyond the two characters after the end
-        let far = |l: &Lint, d: &Document| intersecting(d, l.span.start + 2, l.span.start + 4).into_iter().any(|i| d.get_tokens()[i].span.start >= l.span.end + 2);
-        let sequel_reaches_far = far(l, &doc) || far(l3, &doc3);
-        let same_blanked = blank_all(&ma) == blank_all(&mb);
         let mut inp2 = inp.clone();
-        inp2["diag"] = json!({"contexts_equal_after_blanking_twin_loc": same_blanked, "twin_loc_of_a_context_quote_changed": twin_changed,
-                              "lint_len": len, "lint_start_before": l.span.start, "lint_start_after": l3.span.start, "sequel_window_reaches_beyond_two_chars": sequel_reaches_far, "token_count_before": doc.get_tokens().len(), "token_count_after": doc3.get_tokens().len()});
-        let (class, what) = if ma.priority != mb.priority {
-            ("stable_other", format!("ignored lint {:?} returns after the edit with another priority", l.span))
-        } else if !same_blanked && (l.span.start < 2) != (l3.span.start < 2) && {
-            // the one that starts at offset >= 2 has a prequel window, the other has none; apart from that the contexts agree
-            let (short, long) = if l.span.start < 2 { (&ma, &mb) } else { (&mb, &ma) };
-            let (ls_, ld) = if l.span.start < 2 { (l3, &doc3) } else { (l, &doc) };
-            let npre = intersecting(ld, ls_.span.start - 2, ls_.span.start).len();
-            blank_all(long)[npre.min(long.tokens.len())..] == blank_all(short)[..]
-        } {
-            ("stable_prequel_dropped", format!("ignored lint {:?} {:?} is reported again after an edit elsewhere: flagged text and the tokens within two characters are untouched, but one of the two versions starts at offset < 2, where the prequel window is dropped altogether, and the other does not", l.span, text_of(&doc, l.span)))
-        } else if same_blanked && twin_changed {
-            ("stable_twin_loc", format!("ignored lint {:?} {:?} is reported again after an edit elsewhere: flagged text and the tokens within two characters are untouched, but a quotation mark in the context carries twin_loc (an absolute token index), which the edit shifted", l.span, text_of(&doc, l.span)))
-        } else if !same_blanked && len < 2 && sequel_reaches_far {
-            ("stable_sequel_window", format!("ignored lint {:?} {:?} is reported again after an edit elsewhere: flagged text and the tokens within two characters are untouched, but the sequel window is [s+2,s+4) from the START of the {len}-character span and reaches a token more than two characters after its end", l.span, text_of(&doc, l.span)))
+        inp2["diag"] = json!({"phase": phase, "neighbourhood_tokens_differ_in_twin_loc_only": twin_only, "neighbourhood_tokens_differ_in_word_metadata_only": meta_only, "neighbourhood_tokens_identical": ra == rb,
+                              "lint_len": len, "lint_start_before": l.span.start, "lint_start_after": l3.span.start, "token_count_before": doc.get_tokens().len(), "token_count_after": doc3.get_tokens().len()});
+        let (class, what) = if l.priority != l3.priority {
+            ("stable_other", format!("{phase}: ignored lint {:?} returns with another priority", l.span))
+        } else if twin_only {
+            ("stable_twin_loc", format!("{phase}: ignored lint {:?} {:?} is reported again: flagged text and the tokens within two characters are untouched, but a quotation mark among them carries another twin_loc (an absolute token index)", l.span, text_of(doc, l.span)))
+        } else if meta_only {
+            ("stable_word_metadata", format!("{phase}: ignored lint {:?} {:?} is reported again: flagged text and the tokens within two characters are untouched, but a word among them has other dictionary metadata", l.span, text_of(doc, l.span)))
+        } else if ra == rb {
+            ("stable_windows", format!("{phase}: ignored lint {:?} {:?} is reported again although the tokens within two characters of it are identical: the context is built from something else", l.span, text_of(doc, l.span)))
         } else {
-            ("stable_other", format!("ignored lint {:?} {:?} is reported again after an edit that left its neighbourhood untouched", l.span, text_of(&doc, l.span)))
+            ("stable_other", format!("{phase}: ignored lint {:?} {:?} is reported again although its neighbourhood is untouched", l.span, text_of(doc, l.span)))
         };
-        let inp = inp2;
-        rep.fail(class, what, inp.clone());
+        rep.fail(class, what, inp2);
     }
-    check_only(rep, env, &ignored, &lints3, &kept3, &doc3, &inp, "after the edit");
+    check_only(rep, env, ignored, lints3, &kept3, doc3, inp, phase);
 }
 
 fn bucket(n: usize) -> &'static str {
@@ -737,7 +736,20 @@ fn gen_scenario(r: &mut Rng, env: &mut Env) -> Scenario {
     };
     let chosen_spans: Vec<Span> = ignore.iter().map(|i| spans[*i]).collect();
     let edit = if r.chance(9, 10) { Some(gen_edit(r, &text, &chosen_spans)) } else { None };
-    Scenario { text, lang, ignore, ignore_text: vec![], edit, origin: "generated".into() }
+    // the user adds words of the text to the dictionary (unknown words mostly: the usual "add to dictionary")
+    let dict_add: Vec<String> = if r.chance(1, 3) {
+        let mut ws: Vec<String> = env
+            .lint(&text, &lang)
+            .map(|(d, _)| d.get_tokens().iter().filter(|t| matches!(t.kind, TokenKind::Word(None)) || (t.kind.is_word() && r.chance(1, 8))).map(|t| text_of(&d, t.span)).collect())
+            .unwrap_or_default();
+        ws.sort();
+        ws.dedup();
+        ws.truncate(6);
+        ws
+    } else {
+        vec![]
+    };
+    Scenario { text, lang, ignore, ignore_text: vec![], edit, dict_add, origin: "generated".into() }
 }
 
 // ------------------------------------------------------------------------------------------------
@@ -818,6 +830,20 @@ fn run_wasm(rep: &mut Report, sc: &Scenario) {
         let after3: Vec<Lint> = w2.lint(sc.text.clone(), lang()).iter().filter_map(wasm_inner).collect();
         if after3 != inner {
             fails.push(("clear", "wasm: after clear_ignored_lints the original lints are not all reported".into(), Value::Null));
+        }
+        // "add to dictionary" on the linter that holds the ignore list: an ignored lint that a linter with
+        // the same words still produces, on the same text, must stay away
+        if !sc.dict_add.is_empty() {
+            w.import_words(sc.dict_add.clone());
+            let after_words: Vec<Lint> = w.lint(sc.text.clone(), lang()).iter().filter_map(wasm_inner).collect();
+            let mut fresh = WL::new(WD::American);
+            fresh.import_words(sc.dict_add.clone());
+            let base: Vec<Lint> = fresh.lint(sc.text.clone(), lang()).iter().filter_map(wasm_inner).collect();
+            for i in &chosen {
+                if base.contains(&inner[*i]) && after_words.contains(&inner[*i]) {
+                    fails.push(("stable_word_metadata", format!("wasm: ignored lint {:?} is reported again after import_words({:?}) although the text is the same", inner[*i].span, sc.dict_add), Value::Null));
+                }
+            }
         }
         (fails, inner.len(), n_ign)
     });
@@ -1248,8 +1274,7 @@ fn case_h(rep: &mut Report, env: &mut Env, r: &mut Rng, docs: &[Document], lints
         }
     }
     let line = format!(
-        "H{} {} # {} # {}",
-        env.variant.digit(),
+        "H {} # {} # {}",
         docs.iter().map(|d| doc_str(d, &mut env.km)).collect::<Vec<_>>().join(" | "),
         lints.iter().map(|(l, _)| lint_str(l)).collect::<Vec<_>>().join(" | "),
         ops.join(",")
@@ -1297,7 +1322,7 @@ fn replay_input(rep: &mut Report, env: &mut Env, v: &Value) {
 fn main() {
     let (a, corpus) = hv::cli();
     let mut rep = Report::new(&a.out);
-    rep.rule = "scenarios (text, plain|markdown, subset of its lints with all rules on, edit): corpus, then generated texts (paragraphs/documents, triggers next to quotes and brackets, the same misspelling twice with different followers, one-character lints, malformed) x {all, one, random half} x edits {prepend, append, alter 2-5 chars beyond the lint, random splice}. non-trivial = distinct scenario in which >= 1 ignored lint was hidden".into();
+    rep.rule = "scenarios (text, plain|markdown, subset of its lints with all rules on, edit): corpus, then generated texts (paragraphs/documents, triggers next to quotes and brackets, the same misspelling twice with different followers, one-character lints, malformed) x {all, one, random half} x edits {prepend, append, alter 2-5 chars beyond the lint, random splice} x {dictionary unchanged, words of the text added to a user dictionary}. non-trivial = distinct scenario in which >= 1 ignored lint was hidden".into();
     let mut env = Env::new();
     for c in &corpus {
         replay_input(&mut rep, &mut env, c);
@@ -1355,10 +1380,6 @@ fn main() {
             }
             case_h(&mut rep, &mut env, &mut r, &docs, &lints);
         }
-    }
-    rep.extra.insert("context_variant_followed_by_the_implementation".into(), json!(format!("{}{:?}", if env.variant_detected { "" } else { "UNDETERMINED, assuming " }, env.variant)));
-    if env.variant != Variant::CURRENT {
-        rep.count("NOTE: the implementation follows a REPAIRED context; the _refuted theorems of Properties/C14.v describe the old code");
     }
     rep.monitor("hash_injective_on: contexts seen", env.seen.len() as u64);
     rep.monitor("hash_injective_on: collisions", env.collisions);
